@@ -203,7 +203,7 @@ func runProperty(prop, tier, repo string, cs *Contracts, timeout int, verbose bo
 			ct := cs.Funcs[k]
 			isInit := false
 			if ct == nil {
-				if f0 := p.funcs[k]; f0 != nil && f0.Synthetic == "package initializer" {
+				if f0 := p.funcs[k]; f0 != nil && f0.Synthetic == "package initializer" && hasGlobalInv(cs, f0.Pkg.Pkg.Path()) {
 					isInit = true
 				} else {
 					continue
@@ -490,4 +490,13 @@ func round3(f float64) float64 { return float64(int(f*1000+0.5)) / 1000 }
 func writeJSON(path string, v interface{}) {
 	b, _ := json.MarshalIndent(v, "", " ")
 	os.WriteFile(path, append(b, '\n'), 0o644)
+}
+
+func hasGlobalInv(cs *Contracts, pkg string) bool {
+	for _, gi := range cs.GlobalInvs {
+		if gi.Pkg == pkg {
+			return true
+		}
+	}
+	return false
 }
